@@ -103,8 +103,9 @@ def judge_recon_vs_refdec(chk, pid, case, res, prefix, want_frames=None):
         v.update(verdict="rejected-config", why=res.res.get("errmsg", ""))
         return v
     if enc.crashed(res) or res.res is None:
-        v.update(verdict="violated", key="%s|encoder-crash|%s" % (pid, v["sig"]),
-                 why="encdrv died rc=%s stderr=%s" % (res.rc, res.stderr[-400:]))
+        # a crashing encode emits nothing that could be judged here; crashes are C11's subject
+        v.update(verdict="inconclusive", why="encoder process died (rc=%s) before the stream could be judged: C11's subject [%s]"
+                                              % (res.rc, v["sig"]))
         return v
     if res.res.get("api_error"):
         v.update(verdict="violated", key="%s|encoder-error|%s|%s" % (pid, res.res.get("errmsg", "")[:40], v["sig"]),
